@@ -91,8 +91,28 @@ CONSTANTS MaxCalls,     \* longest call history
 (*       such kinds only occur in "hoth" histories, as the instance under      *)
 (*       observation and as the other instances running before it              *)
 
+(*   alt = 2 / 3 : NON-DEFAULT (norm_eps, reg_eps) with norm_eps # reg_eps, in both orders (EpsScalars:    *)
+(*       powers of two, so that the model decides sigma_max(2^e J0) against norm_eps exactly from the     *)
+(*       integer bracket maxdiag(G0) <= sigma_max(J0)^2 <= tr(G0)).  The two thresholds of the            *)
+(*       normalised-Gramian helper are different numbers for these kinds: single calls over scale         *)
+(*       exponents that carry sigma_max across reg_eps while it stays on one side of norm_eps, and        *)
+(*       across norm_eps, with homogeneity demanded between scales on the SAME side of norm_eps           *)
+
 Kd(name, agg, a, b, pdt)  == [name |-> name, agg |-> agg, a |-> a, b |-> b, pdt |-> pdt, alt |-> 0]
 KdA(name, agg, a, b, pdt) == [name |-> name, agg |-> agg, a |-> a, b |-> b, pdt |-> pdt, alt |-> 1]
+
+KdE(name, agg, alt)       == [name |-> name, agg |-> agg, a |-> 0, b |-> 0, pdt |-> "any", alt |-> alt]
+
+\* exponents of the power-of-two thresholds: alt = 2: norm_eps = 2^-27 (7.5e-9) < reg_eps = 2^-10 (9.8e-4);
+\* alt = 3: norm_eps = 2^-7 (7.8e-3) > reg_eps = 2^-13 (1.2e-4).  CAGrad has no reg_eps (c = 1/4 as for alt = 1)
+EpsScalars == [a \in {2, 3} |-> IF a = 2 THEN [norm_eps_exp |-> -27, reg_eps_exp |-> -10, cagrad_c |-> <<1, 4>>]
+                                        ELSE [norm_eps_exp |-> -7,  reg_eps_exp |-> -13, cagrad_c |-> <<1, 4>>]]
+EpsKinds == { KdE("UPGradE2", "UPGrad", 2),     KdE("UPGradE3", "UPGrad", 3),
+              KdE("DualProjE2", "DualProj", 2), KdE("DualProjE3", "DualProj", 3),
+              KdE("CAGradE2", "CAGrad", 2) }
+IsEps(kind)     == kind.alt \in {2, 3}
+NormEpsExp(kind) == EpsScalars[kind.alt].norm_eps_exp
+RegEpsExp(kind)  == EpsScalars[kind.alt].reg_eps_exp
 
 AltKinds == {
     KdA("UPGradA", "UPGrad", 0, 0, "any"),        KdA("DualProjA", "DualProj", 0, 0, "any"),
@@ -125,7 +145,8 @@ BaseKinds == {
     Kd("TM2", "TrimmedMean", 2, 0, "any"),
     Kd("Krum0_1", "Krum", 0, 1, "any"),           Kd("Krum1_2", "Krum", 1, 2, "any"),
     Kd("Krum0_5", "Krum", 0, 5, "any") }
-Kinds == BaseKinds \cup AltKinds
+HistKinds == BaseKinds \cup AltKinds          \* kinds that occur in histories (as the instance / as another one)
+Kinds == HistKinds \cup EpsKinds             \* EpsKinds: single calls only
 
 Randomised(kind)   == kind.agg \in {"PCGrad", "GradDrop", "Random"}
 \* the classes the rejection clause of C11 names: "the weighted aggregators, GradDrop and
@@ -279,12 +300,18 @@ LowPrec(c) == c.dtype \in {"bf16", "f16"}
 Exps(dt) == IF dt = "f32" THEN {-39, -26, -13, -10, 0, 10, 30, 48}
             ELSE {-332, -100, -39, -13, -10, 0, 48, 100, 331}
 DTypes == {"f32", "f64"}
+\* further exponents for the kinds with norm_eps # reg_eps (both dtypes): with the general ones they put
+\* sigma_max(2^e J0) above both thresholds, between them (either order) and below both
+EpsExps   == {-20, -16, -6}
+EpsShapes == {<<2, 1>>, <<3, 2>>, <<4, 3>>, <<3, 5>>, <<5, 5>>}      \* m >= 2: rows can conflict
 
 IsCatalogued(c) == /\ Len(c.dims) = 2 /\ <<c.dims, c.var>> \in DOMAIN Catalogue /\ c.w = 1
-                   /\ c.dtype \in DTypes /\ c.e \in Exps(c.dtype)
+                   /\ c.dtype \in DTypes /\ c.e \in (Exps(c.dtype) \cup EpsExps)
 
 SingleFinite == UNION {{Cl(sh, v, "finite", "first", dt, e) : v \in Variants(sh), e \in Exps(dt)} :
                           sh \in Shapes, dt \in DTypes}
+SingleEps    == UNION {{Cl(sh, v, "finite", "first", dt, e) : v \in {"gen", "dup"}, e \in (Exps(dt) \cup EpsExps)} :
+                          sh \in EpsShapes, dt \in DTypes}
 SingleNon2d  == {Cl(d, "na", "finite", "first", dt, 0) : d \in {<<>>, <<3>>, <<2, 2, 2>>}, dt \in DTypes}
 SingleBad    == {Cl(sh, "gen", ct, p, dt, 0) : sh \in {<<1, 1>>, <<4, 3>>, <<3, 5>>, <<5, 5>>},
                     ct \in {"nan", "pinf", "ninf"}, p \in {"first", "last"}, dt \in DTypes}
@@ -352,7 +379,7 @@ Families == { {"UPGrad", "DualProj", "CAGrad"}, {"UPGrad", "DualProj", "AlignedM
               {"PCGrad", "GradDrop", "Random"}, {"Krum", "TrimmedMean"}, {"Mean", "Sum", "MGDA", "IMTLG"} }
 \* the other instances: every kind of the same class (the same parameters included: a twin), and the
 \* kinds with alternate parameters - of the same family in the quick tier, all of them in the thorough one
-OtherTab == [kd \in Kinds |-> {k \in Kinds : k.agg = kd.agg}
+OtherTab == [kd \in HistKinds |-> {k \in HistKinds : k.agg = kd.agg}
                   \cup {k \in AltKinds : HistLevel >= 2 \/ \E F \in Families : kd.agg \in F /\ k.agg \in F}]
 OtherKinds(kind) == OtherTab[kind]
 
@@ -368,7 +395,8 @@ CrossSupported == {"UPGrad", "DualProj", "GradDrop"}
 \* single calls: the parameter's dtype; for the kinds that support the other one also the finite matrices
 \* at scale exponent 0 in it
 SingleOK(kind, c) == DtypeOK(kind, c) \/ (kind.agg \in CrossSupported /\ Len(c.dims) = 2 /\ c.content = "finite" /\ c.e = 0)
-SingleTab == [k \in BaseKinds |-> {c \in SingleAlphabet : SingleOK(k, c)}]       \* evaluated once
+SingleTab == [k \in BaseKinds \cup EpsKinds |->
+                 IF IsEps(k) THEN SingleEps ELSE {c \in SingleAlphabet : SingleOK(k, c)}]       \* evaluated once
 Alphabet(kind, mode) ==
     CASE mode = "single" -> SingleTab[kind]
       [] mode = "hist" -> HistAlphabet
@@ -453,6 +481,24 @@ NormEpsSide(c) ==
     ELSE IF (-28 - 2 * c.e) >= 30 \/ info.tr < Pow2(-28 - 2 * c.e) THEN "below"
     ELSE "straddle"
 
+\* Kinds with power-of-two thresholds (IsEps): sigma_max(2^e J0) >= 2^p  <=>  sigma_max(J0)^2 >= 4^(p - e), and
+\* maxdiag(G0) <= sigma_max(J0)^2 <= tr(G0) (integers).  A factor 2 is kept on either side of the threshold so
+\* that the rounding of the code's own SVD cannot change the side (no ties: exact exclusion, counted).
+\* d = p - e; 4^d <= 1/4 for d <= -1 while sigma_max(J0)^2 >= 1; tr(G0) < 2^28 < 4^15 / 2
+ThresholdSide(info, d) ==
+    IF info.rank = 0 THEN "below"
+    ELSE IF d <= -1 THEN "above"
+    ELSE IF d >= 15 THEN "below"
+    ELSE IF info.maxdiag >= 2 * Pow2(2 * d) THEN "above"
+    ELSE IF 2 * info.tr <= Pow2(2 * d) THEN "below"
+    ELSE "straddle"
+ASSUME \A k \in DOMAIN Catalogue : Catalogue[k].tr < Pow2(28) /\ (Catalogue[k].rank > 0 => Catalogue[k].maxdiag >= 1)
+\* side of norm_eps / of reg_eps (the latter only tells which region of the configuration space a class probes)
+NormEpsSideK(kind, c) == IF IsEps(kind) THEN ThresholdSide(Catalogue[<<c.dims, c.var>>], NormEpsExp(kind) - c.e)
+                         ELSE NormEpsSide(c)
+RegEpsSideK(kind, c)  == IF IsEps(kind) THEN ThresholdSide(Catalogue[<<c.dims, c.var>>], RegEpsExp(kind) - c.e)
+                         ELSE "na"
+
 \* rank decisions of pinv / eigh based aggregators are only clear-cut when no singular value that
 \* is exactly zero has to be told from rounding noise
 RankClear(kind, c) ==
@@ -462,19 +508,37 @@ RankClear(kind, c) ==
       [] kind.agg = "AlignedMTL" -> info.rank = m \/ info.rank = 0 \/ c.dtype = "f64"
       [] OTHER -> TRUE
 
+\* "demand"       : A(2^e J0) 2^-e = A(J0), both sides >= norm_eps (reference e = 0: always above, HomWellDefined);
+\* "demand_below" : UPGrad / DualProj / CAGrad with sigma_max < norm_eps: "below it they average by design" - the
+\*                  weights do not depend on the matrix there, so the identity holds between any two such scales
+\*                  (reference: the largest exponent of the group that is below); never across norm_eps
 HomDemand(kind, c) ==          \* c catalogued, finite, contract "vector"
-    IF kind.agg \in NormEpsKinds /\ NormEpsSide(c) # "above" THEN "not_above_norm_eps"
+    IF kind.agg \in NormEpsKinds /\ NormEpsSideK(kind, c) = "below" THEN "demand_below"
+    ELSE IF kind.agg \in NormEpsKinds /\ NormEpsSideK(kind, c) # "above" THEN "not_above_norm_eps"
     ELSE IF ~RankClear(kind, c) THEN "rank_ambiguous"
     ELSE "demand"
 
 HomK(kind, c) ==
     LET info == Catalogue[<<c.dims, c.var>>] IN
-    CASE kind.agg \in {"UPGrad", "DualProj"} -> 10001         \* cond(G/s^2 + reg_eps I) <= (1 + 1e-4)/1e-4
+    CASE kind.agg \in NormEpsKinds /\ NormEpsSideK(kind, c) = "below" -> 1     \* constant weights: exact
+      [] kind.agg \in {"UPGrad", "DualProj"} /\ IsEps(kind) -> Pow2(-RegEpsExp(kind)) + 1     \* (1 + reg_eps)/reg_eps
+      [] kind.agg \in {"UPGrad", "DualProj"} -> 10001         \* cond(G/s^2 + reg_eps I) <= (1 + 1e-4)/1e-4
       [] kind.agg = "CAGrad"     -> 0                          \* conic solver: predicate level, see c11.py
       [] kind.agg = "IMTLG"      -> info.kap2
       [] kind.agg = "AlignedMTL" -> info.kap2
       [] kind.agg = "ConFIG"     -> info.kapu2
       [] OTHER -> 1                                            \* exact under power-of-two scaling
+
+\* The region the kinds with norm_eps # reg_eps are there for is not empty: for every such kind and dtype there
+\* are two classes of one base on the same side of norm_eps - so that the identity is demanded between them -
+\* and on DIFFERENT sides of reg_eps (above norm_eps when norm_eps < reg_eps, below it when norm_eps > reg_eps)
+EpsRegionCovered ==
+    \A k \in EpsKinds : \A dt \in DTypes : \E c1, c2 \in SingleEps :
+        /\ c1.dtype = dt /\ c2.dtype = dt /\ c1.dims = <<3, 5>> /\ c2.dims = <<3, 5>> /\ c1.var = "gen" /\ c2.var = "gen"
+        /\ NormEpsSideK(k, c1) = NormEpsSideK(k, c2)
+        /\ NormEpsSideK(k, c1) = (IF NormEpsExp(k) < RegEpsExp(k) THEN "above" ELSE "below")
+        /\ RegEpsSideK(k, c1) = "above" /\ RegEpsSideK(k, c2) = "below"
+ASSUME EpsRegionCovered
 
 -----------------------------------------------------------------------------
 (* State machine of one aggregator object (and of the process it lives in) *)
@@ -512,7 +576,8 @@ QuickHistKinds == {"Mean", "Sum", "MGDA", "PCGrad", "CAGrad", "IMTLG", "UPGrad",
                    "TM1", "Krum0_1"}
 Init == /\ kind \in Kinds
         /\ mode \in Modes
-        /\ (mode # "hoth" => kind.alt = 0)        \* homogeneity side conditions assume the default norm_eps
+        /\ (mode # "hoth" => kind.alt # 1)
+        /\ (IsEps(kind) => mode = "single")       \* norm_eps # reg_eps: homogeneity across both thresholds
         /\ (mode # "single" => (HistLevel >= 2 \/ kind.name \in QuickHistKinds \/ kind.alt = 1))
         /\ rng = [seed |-> "s0", stream |-> <<>>, calls |-> 0]     \* the harness seeds before constructing
         /\ steps = <<>> /\ ncalls = 0 /\ inputsIntact = TRUE
@@ -656,16 +721,17 @@ HistoryShapes ==
           /\ (LowPrec(steps[i].c) => mode = "hist")
     /\ \A i \in DOMAIN steps : steps[i].op = "other" =>
           /\ mode = "hoth" /\ steps[i].ok \in OtherKinds(kind) /\ (i < Len(steps) \/ ncalls < Limit)
-    /\ (mode # "hoth" => kind.alt = 0)
+    /\ (mode # "hoth" => kind.alt # 1) /\ (IsEps(kind) => mode = "single")
     /\ (ncalls >= Limit /\ mode = "hoth" => steps[Len(steps)].op = "call")
 
 \* homogeneity is only ever demanded where the model can decide the side conditions
 HomWellDefined == \A i \in DOMAIN steps :
     (mode = "single" /\ IsCall(i) /\ steps[i].expect = "vector" /\ IsCatalogued(steps[i].c)) =>
-        /\ HomDemand(kind, steps[i].c) \in {"demand", "not_above_norm_eps", "rank_ambiguous"}
-        /\ (steps[i].c.e = 0 /\ steps[i].c.var # "zero" => NormEpsSide(steps[i].c) = "above")
+        /\ HomDemand(kind, steps[i].c) \in {"demand", "demand_below", "not_above_norm_eps", "rank_ambiguous"}
+        /\ (steps[i].c.e = 0 /\ steps[i].c.var # "zero" => NormEpsSideK(kind, steps[i].c) = "above")
+        /\ (HomDemand(kind, steps[i].c) = "demand_below" => kind.agg \in NormEpsKinds /\ HomK(kind, steps[i].c) = 1)
         /\ HomK(kind, steps[i].c) >= 0
-        /\ kind.alt = 0
+        /\ kind.alt # 1
 
 -----------------------------------------------------------------------------
 (* Scenario export (specification -> code)                                 *)
@@ -683,7 +749,8 @@ StepOut(i) ==
           rewritten |-> RewrittenBefore(i), oth |-> OtherBefore(i), othpar |-> OtherParamsBefore(i),
           zerobefore |-> ZeroRowBefore(i),
           hom |-> IF mode = "single" /\ cat THEN HomDemand(kind, c) ELSE "na",
-          homK |-> IF mode = "single" /\ cat THEN HomK(kind, c) ELSE 0]
+          homK |-> IF mode = "single" /\ cat THEN HomK(kind, c) ELSE 0,
+          regside |-> IF mode = "single" /\ cat THEN RegEpsSideK(kind, c) ELSE "na"]
 
 Scenario == [mode |-> mode, kind |-> kind, param |-> ParamVec(kind), steps |-> [i \in 1..Len(steps) |-> StepOut(i)]]
 Export == (ncalls >= Limit) => PrintT(<<"SCN", ToJson(Scenario)>>)
@@ -698,4 +765,5 @@ ASSUME PrintT(<<"CAT", ToJson(CatSeq(DOMAIN Catalogue))>>)
 ASSUME PrintT(<<"PAR", ToJson([agg \in ParamAggs |-> [i \in 1..MaxParamLen |-> ParamEntry(agg, i, 0)]])>>)
 ASSUME PrintT(<<"PARALT", ToJson([agg \in ParamAggs |-> [i \in 1..MaxParamLen |-> ParamEntry(agg, i, 1)]])>>)
 ASSUME PrintT(<<"ALT", ToJson(AltScalars)>>)
+ASSUME PrintT(<<"EPSK", ToJson(EpsScalars)>>)
 =============================================================================
